@@ -204,8 +204,9 @@ def correspondence(ctx):
         progs.append({'src': src, 'queries': gen_queries(rng, src, ctx.tier)})
     # explicit other code on the same report
     for k, pr in enumerate(progs):
-        if k % 4 == 0:
-            pr['other'] = progs[(k + 7) % len(progs)]['src']
+        if k % 4 in (0, 2):
+            # another program - or the submission itself behind three blank lines: a different text with other line numbers
+            pr['other'] = progs[(k + 7) % len(progs)]['src'] if k % 4 == 0 else '\n\n\n' + pr['src']
             pr['other_queries'] = [['ast', a] for a in ('For', 'Call', 'Assign', 'If', 'BinOp', 'Name')] + \
                                   [['op', o] for o in ('+', '==', '<=', 'and', 'not')] + [['call', c] for c in ('print', 'len', 'foo')]
     res = vlib.run_impl('c08_impl.py', {'programs': progs, 'symbols': SYMS})
